@@ -24,6 +24,7 @@ import EEM.Model.Refine
 import EEM.Model.Resample
 import EEM.Model.TempAgg
 import EEM.Model.Sufficiency
+import EEM.Model.Nondet
 
 open EEM EEM.Proto EEM.Model
 
@@ -660,6 +661,15 @@ def opSuff (args : List String) : String :=
     | _, _ => "bad-op"
   | _ => "bad-op"
 
+/-- `seed <none|n> <global draw>`: `BaseHourlySettings._check_seed` -/
+def opSeed (args : List String) : String :=
+  match args with
+  | [s, g] =>
+    match (if s == "none" then some none else s.toNat?.map some), g.toNat? with
+    | some sd, some g => s!"ok {Model.Nondet.effectiveSeed sd g}"
+    | _, _ => "bad-op"
+  | _ => "bad-op"
+
 def step (line : String) : String :=
   match words line with
   | "submodel" :: args => opPredictSubmodel args
@@ -672,6 +682,7 @@ def step (line : String) : String :=
   | "resample" :: args => opResample args
   | "tempagg" :: args => opTempAgg args
   | "suff" :: args => opSuff args
+  | "seed" :: args => opSeed args
   | "getk" :: args => opGetK args
   | "segrow" :: args => opSegRow args
   | "contribs" :: args => opContribs args
